@@ -82,6 +82,14 @@ func c05Inputs() []c05Input {
 		lg := "2021/01/24:\n  water: NaN\n  r1: 1\n  juice: 2\n  tea: 2\n  r2: 1\n2021/01/25:\n  milk: inf\n  milk: -inf\n  r3: 1\n  r2: 1\n  bread: 1\n  juice: -1\n"
 		out = append(out, c05Input{Name: "non-finite-quantities", Book: book, Log: lg})
 	}
+	// names that a plausible comparator cannot tell apart or cannot order (path-prefix pairs at a '/', pairs that differ
+	// in case only, equal lengths, equal quantities): whatever a report sorts by, ties must not fall back to map order
+	{
+		book := "bread:\n  cal: 2\n  fat: 1\n  fat/sat: 1\n  Cal: 2\nbread/rye:\n  cal: 2\n  fat/sat: 1\n  FAT: 1\nBread:\n  cal: 2\n  ab: 1\n  ba: 1\nbread/rye/dark:\n  bread: 1\n  ab: 1\n"
+		lg := "2021/01/24:\n  coffee: 1\n  coffee/cup: 1\n  Coffee: 1\n  bread: 1\n  bread/rye: 1\n  tea/: 1\n  tea: 1\n  ab: 1\n  ba: 1\n" +
+			"2021/01/25:\n  coffee/cup/large: 1\n  coffee/cup: 1\n  Bread: 1\n  bread/rye/dark: 1\n  TEA: 1\n  tea: 1\n  coffee: 1\n  ba: 1\n"
+		out = append(out, c05Input{Name: "names-no-comparator-separates", Book: book, Log: lg})
+	}
 	for _, sh := range shapes {
 		for _, extraDepth := range []int{0, 1} {
 			lg := absLog{{Date: "2021/01/24", Entries: []absIng{{sh.book[0].Name, 1}, {"u1", 2}}}, {Date: "2021/01/25", Entries: []absIng{{sh.book[1].Name, 2}, {"u2", 2}}}}
